@@ -83,3 +83,27 @@ Definition check_call (c : c17_case) : N :=
     | None => false
     end in
   code agree_model (spec_ok pl cancel strict o stats).
+
+(* ---- shutdown scenarios (Connection.Stop with requests in flight; the replies would come after the stop).
+   class per call: 0 response, 1 non-nil error, 2 neither a response nor an error, 3 panic, 4 hang; Stop() hung; len(resCh) after
+   (negative = resMu not acquirable). *)
+Definition shut_case : Type := (list N * bool * bool * N)%type.   (* classes, stop hung, table blocked, pending entries *)
+
+(* model: the stop is an environment in which no response arrives any more and sends start to fail: every attempt in flight ends
+   with its timeout, the retry with a send error (or, if sends still succeed, the budget is exhausted): an error either way *)
+Definition shutdown_model_outcomes : list outcome :=
+  let run1 evs id := match run fixed init evs with
+                     | Some s => match get (reqs s) id with Some q => outcome_of (st q) | None => OPending end
+                     | None => OPending end in
+  [run1 [NewCall 1; Register 1; Send 1; Fire 1; SelTimeout 1; Dereg 1; Retry 1 2; Register 2; SendFail 2] 2;
+   run1 [NewCall 1; Register 1; Send 1; Fire 1; SelTimeout 1; Dereg 1; Retry 1 2; Register 2; Send 2; Fire 2; SelTimeout 2; Dereg 2;
+         Retry 2 3; Register 3; Send 3; Fire 3; SelTimeout 3; Dereg 3; Retry 3 4; Register 4; Send 4; Fire 4; SelTimeout 4; Dereg 4] 4].
+Definition outcome_is_error (o : outcome) : bool := match o with OTimeout | OSendErr => true | _ => false end.
+
+Definition check_shutdown (c : shut_case) : N :=
+  let '(classes, stop_hung, blocked, pending) := c in
+  let agree_model := forallb outcome_is_error shutdown_model_outcomes && forallb (N.eqb 1) classes && negb stop_hung &&
+                     negb blocked && (pending =? 0) in
+  (* oracle: every request ends with a response or an error - never neither -, nothing panics, hangs or leaks *)
+  let spec := forallb (fun x => (x =? 0) || (x =? 1)) classes && negb stop_hung && negb blocked && (pending =? 0) in
+  code agree_model spec.
